@@ -61,7 +61,7 @@ func (g *ogen) jxNode() onode {
 		// every entry of a map is ranged over with ITS value, also an entry whose key is not equal to itself
 		{"{{range k, v := nan1}}[{{v}}]{{end}}", "[" + g.escape("n<") + "]"},
 		{"{{range nan1}}[{{.}}]{{end}}", "[" + g.escape("n<") + "]"},
-		{"{{range k, v := nan1}}{{range v}}({{.}}){{end}}{{end}}{{range k, v := nan2}}{{range v}}({{.}}){{end}}{{end}}", "(" + g.E(1) + ")(" + g.E(2) + ")"},
+		{"{{range k, v := nan2}}{{range v}}({{.}}){{end}}{{end}}{{range nan2}}{{len(.)}}{{end}}", "(" + g.E(2) + ")" + g.E(1)},
 		// the same field chain through an interface-typed field holding values of different struct types
 		{"{{range pets}}{{.Pet.Name}};{{end}}", g.E("Tom") + ";" + g.E("Rex") + ";" + g.E("Kit") + ";"},
 		{"{{range pets}}{{.Pet.Name}}={{.Pet[\"Name\"]}};{{end}}", g.E("Tom") + "=" + g.E("Tom") + ";" + g.E("Rex") + "=" + g.E("Rex") + ";" + g.E("Kit") + "=" + g.E("Kit") + ";"},
@@ -78,6 +78,11 @@ func (g *ogen) jxNode() onode {
 		{"{{try}}{{try}}a{{ hold.Boom() }}{{catch}}{{ hold.Boom() }}{{end}}DEAD{{catch}}k{{end}}", "k"},
 	}
 	c := cs[r.Intn(len(cs))]
+	// each flavour leans towards the constructs that speak about its own property
+	want := map[string]string{"fields": "pets", "isset": "mn[", "try": "{{try}}", "include": "octx", "control": "nan", "calls": "| rec"}[g.flavor]
+	for try := 0; want != "" && try < 4 && !strings.Contains(c.src, want); try++ {
+		c = cs[r.Intn(len(cs))]
+	}
 	return onode{src: c.src, out: c.out, failOff: -1}
 }
 
